@@ -28,6 +28,10 @@ pub fn run() {
     let mut db: Addr<SequenceDbManager> = sys.block_on(async { SequenceDbManager::new().start() });
     let mut g = SeqGroup::new(100);
     let mut c: Vec<SimpleSequence> = vec![];
+    // per node: (value stored in its last snapshot, number of committed requests at that time); marks of all requests
+    let mut csaved: HashMap<usize, (u64, usize)> = HashMap::new();
+    let mut cmarks: Vec<Option<u64>> = vec![];
+    let mut rsaved: HashMap<usize, (u64, usize)> = HashMap::new();
     // real ConfigActors as cluster nodes + the committed log of ConfigAdd commands + current content per key
     let mut r: Vec<Addr<ConfigActor>> = vec![];
     let mut rlog: Vec<(String, String, u64, Option<u64>)> = vec![];
@@ -82,6 +86,8 @@ pub fn run() {
             ["c", "new", n, st, b] => match (n.parse::<usize>(), st.parse::<u64>(), b.parse::<u64>()) {
                 (Ok(n), Ok(st), Ok(b)) => {
                     c = (0..n).map(|_| SimpleSequence::new(st, b)).collect();
+                    csaved.clear();
+                    cmarks.clear();
                     "ok".to_string()
                 }
                 _ => "bad-op".to_string(),
@@ -92,6 +98,7 @@ pub fn run() {
                     // mark and every node applies it with set_valid_last_id
                     match c[i].next_state() {
                         Ok((id, mark)) => {
+                            cmarks.push(mark);
                             if let Some(m) = mark {
                                 for s in c.iter_mut() {
                                     s.set_valid_last_id(m);
@@ -113,8 +120,62 @@ pub fn run() {
                 }
                 _ => "bad-op".to_string(),
             },
+            // the node compacts: the value its snapshot stores (get_end_id) and the log position
+            ["c", "snap", i] => match i.parse::<usize>() {
+                Ok(i) if i < c.len() => {
+                    csaved.insert(i, (c[i].get_end_id(), cmarks.len()));
+                    "ok".to_string()
+                }
+                _ => "bad-op".to_string(),
+            },
+            // restart from that snapshot: set_last_id(stored value), then the marks of the requests committed since
+            ["c", "restartsaved", i] => match i.parse::<usize>() {
+                Ok(i) if i < c.len() => match csaved.get(&i) {
+                    Some((v, pos)) => {
+                        c[i].set_last_id(*v);
+                        for m in &cmarks[*pos..] {
+                            if let Some(m) = m {
+                                c[i].set_valid_last_id(*m);
+                            }
+                        }
+                        "ok".to_string()
+                    }
+                    None => "nosnapshot".to_string(),
+                },
+                _ => "bad-op".to_string(),
+            },
+            ["r", "snap", i] => match i.parse::<usize>() {
+                Ok(i) if i < r.len() => {
+                    let node = r[i].clone();
+                    let e = sys.block_on(async move { node.send(VerifConfigSeq { draw: false }).await.map(|x| x.0).unwrap_or(0) });
+                    rsaved.insert(i, (e, rlog.len()));
+                    "ok".to_string()
+                }
+                _ => "bad-op".to_string(),
+            },
+            // a fresh actor loads the snapshot's sequence record (InnerSetLastId) and replays the committed log since
+            ["r", "restartsaved", i] => match i.parse::<usize>() {
+                Ok(i) if i < r.len() => match rsaved.get(&i).cloned() {
+                    Some((v, pos)) => {
+                        let log: Vec<_> = rlog[pos..].to_vec();
+                        let fresh = sys.block_on(async move {
+                            let fresh = ConfigActor::new().start();
+                            let _ = fresh.send(rnacos::config::core::ConfigCmd::InnerSetLastId(v)).await;
+                            for e in log {
+                                let _ = fresh.send(mk_add(&e)).await;
+                            }
+                            fresh
+                        });
+                        r[i] = fresh;
+                        "ok".to_string()
+                    }
+                    None => "nosnapshot".to_string(),
+                },
+                _ => "bad-op".to_string(),
+            },
             ["r", "new", n] => match n.parse::<usize>() {
                 Ok(n) => {
+                    rsaved.clear();
                     r = sys.block_on(async { (0..n).map(|_| ConfigActor::new().start()).collect() });
                     rlog = vec![];
                     rcontent = HashMap::new();
